@@ -101,9 +101,20 @@ def api_search(ctx, n):
         fld = rng.randint(-8, 9, size=shp) / 4.0
         ax = int(rng.randint(0, len(shp)))
         msk = None
-        kind = rng.choice(["plain", "nan", "masked", "nodata"])
+        kind = rng.choice(["plain", "nan", "masked", "nodata", "masked+nan", "masked+nodata"])
         arg, kw = fld, {}
-        if kind == "nan":
+        if kind in ("masked+nan", "masked+nodata"):
+            # genuinely masked cells (junk data underneath) AND unmasked missing values in the same call
+            m1 = rng.rand(*shp) < 0.25
+            under = fld.copy(); under[m1] = float(rng.choice([-9999.0, 50.0]))
+            m2 = (rng.rand(*shp) < 0.2) & ~m1
+            if kind == "masked+nan":
+                under[m2] = np.nan
+            else:
+                under[m2] = 1.0; m2 = np.isclose(under, 1.0) & ~m1; kw = {"no_data": 1.0}
+            arg = np.ma.array(under, mask=m1)
+            msk = m1 | m2
+        elif kind == "nan":
             arg = fld.copy(); arg[rng.rand(*shp) < 0.25] = np.nan; msk = np.isnan(arg)
         elif kind == "masked":
             msk = rng.rand(*shp) < 0.25; arg = np.ma.array(fld, mask=msk)
